@@ -211,7 +211,7 @@ def _summary(W):
 
 # ----------------------------------------------------------------------------------------------- H2
 @harness('H2', targets='kopf._core.reactor.processing.process_resource_causes', props=['C06', 'C09', 'C11', 'C15', 'C03'],
-         prop_clauses={'C09': ['removal_only_if', 'addition_iff'], 'C11': ['removal_only_if'], 'C15': ['addition_iff'], 'C03': ['removal_only_if', 'addition_iff', 'eventual_release_step']},
+         prop_clauses={'C09': ['removal_only_if', 'addition_iff'], 'C11': ['removal_only_if'], 'C15': ['addition_iff', 'eventual_release_step'], 'C03': ['removal_only_if', 'addition_iff', 'eventual_release_step']},
          clauses=['removal_only_if', 'addition_iff', 'dedicated_cycles_skip_handlers', 'eventual_release_step',
                   'own_finalizer_only'],
          canaries=['canary.never_releases', 'canary.never_adds'],
